@@ -271,8 +271,35 @@ class Fn:
             self._roots = roots
         return self._roots
 
+    def ref_path(self, l, depth=0):
+        """field path (names) from the root local to what reference-local l points at, when l has a single definition
+        that is a borrow / move of a borrow: `&mut (*_1).commitment.0` -> ('commitment', '0')"""
+        ds = self.defs().get(l, [])
+        if len(ds) != 1 or depth > 6:
+            return ()
+        d = ds[0]
+        if d[0] == "assign":
+            rv = d[3]
+            if rv["k"] in ("ref", "rawptr"):
+                p = rv["place"]
+                path = tuple(e.get("n", str(e.get("f"))) for e in p["p"] if e != "*" and isinstance(e, dict) and "f" in e)
+                return self.ref_path(p["l"], depth + 1) + path if self.local_ty(p["l"]).startswith(("&", "*")) else path
+            if rv["k"] in ("use", "cast"):
+                src = rv["op"].get("copy") or rv["op"].get("move")
+                if src is not None and not [e for e in src["p"] if e != "*"]:
+                    return self.ref_path(src["l"], depth + 1)
+        elif d[0] == "call":
+            ci = callee_of(d[2])
+            if ci and ci.get("name") in BORROW_PROJ and d[2]["args"]:
+                a = d[2]["args"][0]
+                src = a.get("copy") or a.get("move")
+                if src is not None:
+                    return self.ref_path(src["l"], depth + 1)
+        return ()
+
     def mutations(self):
-        """local -> [(bb, term)] calls that receive a `&mut` reference to it (in-place updates), in program order"""
+        """local -> [(bb, term, arg index, field path)] calls that receive a `&mut` reference to (a part of) it
+        (in-place updates), in program order"""
         if getattr(self, "_muts", None) is None:
             roots = self.ref_roots()
             m = defaultdict(list)
@@ -284,10 +311,11 @@ class Fn:
                     if not p:
                         continue
                     tg = set(roots.get(p["l"], set()))
+                    path = self.ref_path(p["l"])
                     for r in tg:
                         ty = self.local_ty(r)
                         if not (ty.startswith("&") or ty.startswith("*")):
-                            m[r].append((bb, t, i))
+                            m[r].append((bb, t, i, path))
             rpo = self.rpo()
             for l in m:
                 m[l].sort(key=lambda x: rpo.get(x[0], 1 << 30))
